@@ -664,6 +664,7 @@ def handle (st : DState) (line : String) : String × DState :=
      | ["cctppause", which, b] => upd (.cctpPause (which == "burn") (b == "1"))
      | ["burnlimit", n] => (match parseNat n with | some n => upd (.burnLimit n) | none => ("bad-op", st))
      | ["recvenabled", b] => upd (.recvEnabled (b == "1"))
+     | ["sendenabled", d, b] => (match unhxS d with | some d => upd (.sendEnabled d (b == "1")) | none => ("bad-op", st))
      | ["meta", _, _, _, _, _, _] => ("ok", st)   -- relayer, sequence, timeout, block height and time: no part in anything modelled
      | ["role", _, a] => (match unhxS a with | some _ => ("ok", st) | none => ("bad-op", st))  -- roles of other modules: no part in anything modelled
      | ["hyp", "setup", _] => ("ok", st)
